@@ -91,6 +91,8 @@ HARNESSES = {
     "u07_root_map_announces_its_length": {"crate": "automerge", "file": "rust/automerge/src/autoserde.rs", "fn": "AutoSerdeMap::serialize", "mode": "bounded", "bound": "trait-contract instance: empty root"},
     "u07_scalar_faithful": {"crate": "automerge", "file": "rust/automerge/src/autoserde.rs", "fn": "AutoSerdeVal::serialize (scalar arm), ScalarValue: Serialize", "mode": "complete",
                             "bound": "all Int / Uint / Timestamp / Counter / Boolean / Null values (loop-free); Str / Bytes / F64 / Unknown not covered"},
+    "u07_seq_exports_winners": {"crate": "automerge", "file": "rust/automerge/src/autoserde.rs", "fn": "AutoSerdeSeq::serialize, AutoSerdeVal::serialize", "mode": "bounded",
+                                "bound": "trait-contract instance: a one-element list whose position holds a conflict [loser, winner]"},
     # ---- U08 text width
     "u08_width_laws_q": {"crate": "automerge", "file": TYPES, "fn": "TextEncoding::width", "mode": "bounded", "bound": "all valid UTF-8 strings of <= 2 bytes", "timeout_s": 1500},
     "u08_width_laws_t3": {"crate": "automerge", "file": TYPES, "fn": "TextEncoding::width", "mode": "bounded", "bound": "all valid UTF-8 strings of <= 3 bytes", "tier": "thorough", "timeout_s": 3600},
@@ -189,12 +191,13 @@ PROPERTIES.update({
     },
     "C30": {
         "level": "proof",
-        "verus": [("u04_ids", ["exid_to_opid", "get_actor_safe", "new", "remove_actor", "rewrite_with_new_actor"])],
+        "verus": [("u04_ids", ["exid_to_opid", "get_actor_safe", "new", "remove_actor", "rewrite_with_new_actor", "with_new_actor", "without_actor", "actor"])],
         "kani": ["u04_opid_order", "u04_opid_actor_shift", "u04_opid_new"],
-        "not_under_contract": ["OpSet::lookup_actor (binary search; assumed contract, rests on the sorted duplicate-free actor table)", "OpSet::insert_actor column rewrite", "get_obj_meta"],
+        "not_under_contract": ["OpSet::lookup_actor (binary search; assumed contract, rests on the sorted duplicate-free actor table)", "OpSet::insert_actor / ChangeGraph::insert_actor column rewrites", "get_obj_meta", "PatchLog::migrate_actors loop"],
         "assumptions": ["a document has at most u32::MAX actors"],
         "explanation": "Verus proves on the real Automerge::exid_to_opid that an id resolves to an op id whose actor IS the id's actor whether the index hint is right, stale or out of range, and that an unknown "
-                       "actor gives Err; Kani proves (complete) that the actor-table shifts with_new_actor / without_actor preserve counters, order and distinctness and are mutually inverse.",
+                       "actor gives Err; the actor-table shifts OpId::with_new_actor / without_actor are proved exactly (Verus) and order/identity preserving and mutually inverse (Kani, complete); "
+                       "Event::with_new_actor / without_actor re-index EVERY id-carrying pending patch event and nothing else; Actor::{remove_actor, rewrite_with_new_actor} keep the document's cached actor index on the same actor.",
     },
     "C37": {
         "level": "proof",
@@ -260,8 +263,8 @@ PROPERTIES.update({
     "C32": {
         "level": "proof",
         "verus": [],
-        "kani": ["u07_scalar_faithful", "u07_map_announces_true_length", "u07_root_map_announces_its_length"],
-        "not_under_contract": ["AutoSerdeSeq, AutoSerdeVal container arms and Str/Bytes/F64 scalars", "ReadDoc::get/keys/length/text of a real document (winners only, text as strings)", "maps with >= 1 entry (Keys cannot be built outside a document)"],
+        "kani": ["u07_scalar_faithful", "u07_seq_exports_winners", "u07_map_announces_true_length", "u07_root_map_announces_its_length"],
+        "not_under_contract": ["AutoSerdeVal container arms beyond the instances, Str/Bytes/F64 scalars", "ReadDoc::get/keys/length/text of a real document (winners only, text as strings)", "maps with >= 1 entry (Keys cannot be built outside a document)"],
         "explanation": "Two leaves. (1) complete: AutoSerdeVal exports every Int/Uint/Timestamp/Counter/Boolean/Null scalar as itself (which serde primitive, which value) for ALL values. (2) BOUNDED (maps with zero entries): AutoSerdeMap::serialize is verified against the ReadDoc / Serializer TRAIT CONTRACTS with a harness-local ReadDoc of arbitrary reported lengths and a recording Serializer: the announced map "
                        "length equals the number of entries written and doc.length(the map being serialized). Complete for the explored contract instance (empty map nested in a root of any length).",
     },
